@@ -12,7 +12,9 @@ Trace == ndJsonDeserialize(IOEnv.VERIF_TRACE)
 Faulted(e) == (e.k >= 0 /\ e.k < e.total) \/ e.failclose # 0
 
 Verdict(e) ==
-  IF e.op = "cmd" THEN           \* real binary writing to a failing output: exit status must be non zero
+  IF e.op = "cmdslow" THEN       \* real binary whose output is taken late but entirely (no fault): a successful exit means complete output
+       IF e.hung # 0 THEN "hung" ELSE IF e.rc = 0 /\ e.got # e.want THEN "exit-zero-with-missing-records" ELSE "ok"
+  ELSE IF e.op = "cmd" THEN           \* real binary writing to a failing output: exit status must be non zero
        IF e.hung # 0 THEN "hung" ELSE IF e.rc = 0 THEN "exit-zero-after-write-failure" ELSE "ok"
   ELSE IF e.hung # 0 THEN "hung"
   ELSE IF Faulted(e) /\ e.fatal = 0 THEN "silent-loss"
